@@ -269,6 +269,9 @@ def checks(tier):
            for n in (("lif", "alif", "qif") if th else ("lif", "alif")) for tf in ("none", "scale")]
     bic = [dict(B=2, combine=c, transforms=tr, nconn=nc, nneur=nn, T=2) for c in ("sum", "mean", "prod", "min", "max", "custom") for tr in (False, True)
            for nc, nn in (((2, 2), (1, 2), (2, 1)) if th else ((2, 2),))]
+    if not th:
+        # a single connection: the combination (built-in or custom) of ONE output is still the combination
+        bic += [dict(B=2, combine=c, transforms=tr, nconn=1, nneur=nn, T=2) for c in ("custom", "mean") for tr in (False, True) for nn in (1, 2)]
     rec = [dict(B=B, fbsyn=s, fbbias=b, fbneuron=fn, T=(3 if th else 3)) for B in ((1, 2) if th else (1,)) for s in ("delta", "single") for b in (False, True)
            for fn in (("lif", "qif") if th else ("lif",))]
     rec.append(dict(B=1, fbsyn="delta", fbbias=False, fbneuron="qif0", T=3))
